@@ -41,6 +41,17 @@ var optionalSlots = map[string]bool{"SliceNode.From": true, "SliceNode.To": true
 func (e *Exec) resolveInvoke(st *State, fr *Frame, cc *ssa.CallCommon, recv *Value, args []*Value, k func(*State, []*Value)) bool {
 	v := recv.One()
 	if ctorOf(v) != "VPtr" || v.Args[0].IntV == nil {
+		// getters of a syntax node of unknown kind: pure observers of the node
+		if strings.HasSuffix(cc.Value.Type().String(), "ast.Node") {
+			switch cc.Method.Name() {
+			case "Type":
+				k(st, []*Value{{T: cc.Signature().Results().At(0).Type(), L: []*Term{UF("node_type", SInt, v)}}})
+				return true
+			case "Location":
+				k(st, []*Value{{T: cc.Signature().Results().At(0).Type(), L: []*Term{UF("node_line", SBV(64), v), UF("node_col", SBV(64), v)}}})
+				return true
+			}
+		}
 		return false
 	}
 	T, ok := typeByCode[int(v.Args[0].IntV.Int64())]
